@@ -255,6 +255,69 @@ def oracle_c17(spec, root, b, names, hist=None):
     return fails
 
 
+# ------------------------------------------------------------------------------------------ setting names are opaque strings
+# Every family below takes its configuration dicts from `base.gen_cfg`; while C17 runs it is wrapped so that a share of
+# them also carries keys that LOOK like structure: keys containing dots - next to the nested path of the same spelling
+# (`{"sec.a": 1}` beside `{"sec": {"a": 2}}`, `"sub2.p"` inside `sec` beside `sec.sub2.p`) -, other separator-like
+# characters (`/`, ` `, `__`, `-`, leading / trailing / doubled dots), the empty string, keys equal to collection or
+# task names, sections stored under such keys; in the families that do not go through the Lean driver's line protocol
+# also `:`, `,`, `|`, braces.  Keys are compared as whole strings by the oracle.  Not generated: keys that differ only in
+# case or in `_` vs nesting (`sec_a` beside `sec.a`-the-path: AmbiguousEnvVar by design of the env layer) and non-string
+# keys (configure / configuration handle them, the env layer raises TypeError when a task runs; JSON replays cannot carry them).
+
+ODD_LEAF_KEYS = ["sec.a", "sec.b", "a.b", "sub2.p", "sec.sub2.p", "k1.x", "a/b", "a b", "a__b", "", "x.", ".y", "a..b", "k-1", "sub",
+                 "build", "ns_a.a", "my_task"]
+ODD_SECTION_KEYS = ["s.t", "s/t", "deep", " "]
+ODD_KEYS_NO_MODEL = ["a:b", "a,b", "{a}", "a|b", "a\tb"]
+ODD = {"on": False, "model_safe": True, "orig": None, "hist": {}}
+
+
+def key_class(k):
+    return ("empty" if k == "" else "dotted" if "." in k else "like_a_collection_or_task_name" if k.isidentifier() else
+            "driver_separator" if any(c in k for c in ":,{}|\t") else "other_separator")
+
+
+def decorate_cfg(rng, cfg):
+    places = [cfg]
+    if isinstance(cfg.get("sec"), dict):
+        places += [cfg["sec"], cfg["sec"]]
+        if isinstance(cfg["sec"].get("sub2"), dict):
+            places.append(cfg["sec"]["sub2"])
+    for _ in range(rng.randint(1, 3)):
+        d = rng.choice(places)
+        r = rng.random()
+        if r < 0.15:
+            k = rng.choice(ODD_SECTION_KEYS)
+            d[k] = {rng.choice(["p", "q", "p.q"]): rng.randint(0, 9)}
+            ODD["hist"]["odd_key_section"] = ODD["hist"].get("odd_key_section", 0) + 1
+        elif r < 0.3 and not ODD["model_safe"]:
+            k = rng.choice(ODD_KEYS_NO_MODEL)
+            d[k] = rng.randint(0, 9)
+        else:
+            k = rng.choice(ODD_LEAF_KEYS)
+            d[k] = rng.choice([rng.randint(0, 9), "v%d" % rng.randint(0, 3), None, True])
+        for name in ("odd_key:" + key_class(k), "odd_key_at_%s" % ("top_level" if d is cfg else "nested_level")):
+            ODD["hist"][name] = ODD["hist"].get(name, 0) + 1
+        if "." in k and d is cfg and isinstance(cfg.get(k.split(".")[0]), dict):
+            ODD["hist"]["odd_key_dotted_beside_nested_path_of_same_spelling"] = ODD["hist"].get("odd_key_dotted_beside_nested_path_of_same_spelling", 0) + 1
+    ODD["hist"]["odd_key_cfgs"] = ODD["hist"].get("odd_key_cfgs", 0) + 1
+    return cfg
+
+
+def odd_gen_cfg(rng, rich, depth=0):
+    cfg = ODD["orig"](rng, rich, depth)
+    if depth == 0 and rich and ODD["on"] and rng.random() < 0.4:
+        decorate_cfg(rng, cfg)
+    return cfg
+
+
+def odd_keys_in(v):
+    """number of keys in a nested dict that are not plain identifiers"""
+    if not isinstance(v, dict):
+        return 0
+    return sum((not (isinstance(k, str) and k.isidentifier())) + odd_keys_in(x) for k, x in v.items())
+
+
 # ------------------------------------------------------------------------------------------ histories on ONE live tree
 # The property speaks about the tree AS IT IS when the settings are asked for.  A history interleaves lookups
 # (configuration(name) / task_with_config / __getitem__ + to_contexts / a Program run / an Executor run, through the
@@ -1454,12 +1517,22 @@ def run_inrun_reconfigure(ctx, out):
 
 def run(ctx):
     out = Outcome()
-    drv, lines, expect, nq = base.run_trees(ctx, out, True, oracle_c17, ctx.n(220, 3000), 200 if ctx.thorough else 90,
-                                            nontrivial=lambda spec, feats: "shared_section_on_path" in feats)
-    run_histories(ctx, out, lines, expect)
-    run_unnamed_calls(ctx, out)
-    run_multi_task_runs(ctx, out)
-    run_inrun_reconfigure(ctx, out)
+    ODD.update(on=True, model_safe=True, orig=base.gen_cfg)
+    base.gen_cfg = odd_gen_cfg  # C17's process only: every generator of every family draws its settings through it
+    try:
+        drv, lines, expect, nq = base.run_trees(ctx, out, True, oracle_c17, ctx.n(220, 3000), 200 if ctx.thorough else 90,
+                                                nontrivial=lambda spec, feats: "shared_section_on_path" in feats)
+        run_histories(ctx, out, lines, expect)
+        ODD["model_safe"] = False  # the families below are judged by the oracle only: any character may occur in a key
+        run_unnamed_calls(ctx, out)
+        run_multi_task_runs(ctx, out)
+        run_inrun_reconfigure(ctx, out)
+    finally:
+        base.gen_cfg = ODD["orig"]
+        ODD["on"] = False
+    for k, v in ODD["hist"].items():
+        out.hist[k] += v
+    ODD["hist"] = {}
     base.compare(ctx, out, drv, lines, expect)
     out.extra["queries"] = nq
     return out
